@@ -748,4 +748,129 @@ theorem quoteSeq_spec (p : Prep) :
     simp only [quoteSeq, List.map_cons]
     rw [← this.1, ih _ this.2]
 
+
+/-! ## `normalize_name` / `denormalize_name` -/
+
+/-- **denormalize ∘ normalize** on a server-side name, under the two case-map facts
+    Python's tables satisfy on the name (proved below for ASCII names) -/
+theorem denormalize_normalize_gen (p : Prep) (X n : Str) (f : Option Bool)
+    (hlow : lower p (lower p X) = lower p X) (hup : upper p (lower p X) = upper p X)
+    (h : normalizeName p X = some (n, f)) : denormalizeName p f n = some X := by
+  unfold normalizeName at h
+  simp only at h
+  by_cases h1 : upper p X = lower p X
+  · simp only [h1, beq_self_eq_true, if_true, Option.some.injEq, Prod.mk.injEq] at h
+    obtain ⟨hn, hf⟩ := h
+    subst hn; subst hf
+    simp [denormalizeName, lowerQ, upperQ, h1]
+  · have h1' : (upper p X == lower p X) = false := by simpa using h1
+    simp only [h1', Bool.false_eq_true, if_false] at h
+    have hXtrue : denormalizeName p (some true) X = some X := by
+      simp [denormalizeName, lowerQ, upperQ]
+    have hXnone : lower p X ≠ X → denormalizeName p none X = some X := by
+      intro hne
+      have : (lower p X == X) = false := by simpa using hne
+      simp [denormalizeName, lowerQ, upperQ, h1', this]
+    by_cases h2 : upper p X = X
+    · simp only [h2, beq_self_eq_true, if_true] at h
+      cases hr : requiresQuotes p (lower p X) with
+      | none => rw [hr] at h; cases h
+      | some b =>
+        rw [hr] at h
+        cases b with
+        | false =>
+          simp only [Option.some.injEq, Prod.mk.injEq] at h
+          obtain ⟨hn, hf⟩ := h
+          subst hn; subst hf
+          have hne : (upper p X == lower p X) = false := h1'
+          have hne2 : ¬ X = lower p X := fun e => h1 (by rw [h2]; exact e)
+          simp only [denormalizeName, lowerQ, upperQ, hlow, hup, beq_self_eq_true, if_true, hr]
+          simp [h2, hne2, hr]
+        | true =>
+          simp only at h
+          by_cases h3 : lower p X = X
+          · simp only [h3, beq_self_eq_true, if_true, Option.some.injEq, Prod.mk.injEq] at h
+            obtain ⟨hn, hf⟩ := h
+            subst hn; subst hf
+            exact hXtrue
+          · have : (lower p X == X) = false := by simpa using h3
+            simp only [this, Bool.false_eq_true, if_false, Option.some.injEq, Prod.mk.injEq] at h
+            obtain ⟨hn, hf⟩ := h
+            subst hn; subst hf
+            exact hXnone h3
+    · have h2' : (upper p X == X) = false := by simpa using h2
+      simp only [h2', Bool.false_eq_true, if_false] at h
+      by_cases h3 : lower p X = X
+      · simp only [h3, beq_self_eq_true, if_true, Option.some.injEq, Prod.mk.injEq] at h
+        obtain ⟨hn, hf⟩ := h
+        subst hn; subst hf
+        exact hXtrue
+      · have : (lower p X == X) = false := by simpa using h3
+        simp only [this, Bool.false_eq_true, if_false, Option.some.injEq, Prod.mk.injEq] at h
+        obtain ⟨hn, hf⟩ := h
+        subst hn; subst hf
+        exact hXnone h3
+
+theorem lower_ascii (p : Prep) (X : Str) (h : ∀ c ∈ X, c < 128) : lower p X = X.map asciiLowerChar := by
+  unfold lower
+  induction X with
+  | nil => rfl
+  | cons c t ih =>
+    have hc := h c (by simp)
+    simp only [List.flatMap_cons, List.map_cons, lowerChar, hc, if_true]
+    rw [ih (fun x hx => h x (by simp [hx]))]
+    rfl
+
+theorem upper_ascii (p : Prep) (X : Str) (h : ∀ c ∈ X, c < 128) : upper p X = X.map asciiUpperChar := by
+  unfold upper
+  induction X with
+  | nil => rfl
+  | cons c t ih =>
+    have hc := h c (by simp)
+    simp only [List.flatMap_cons, List.map_cons, upperChar, hc, if_true]
+    rw [ih (fun x hx => h x (by simp [hx]))]
+    rfl
+
+theorem asciiLower_lt (c : Nat) (h : c < 128) : asciiLowerChar c < 128 := by
+  unfold asciiLowerChar; split <;> simp_all <;> omega
+
+theorem asciiLower_idem (c : Nat) : asciiLowerChar (asciiLowerChar c) = asciiLowerChar c := by
+  unfold asciiLowerChar
+  by_cases h : (65 ≤ c && c ≤ 90) = true
+  · simp only [h, if_true]
+    simp only [Bool.and_eq_true, decide_eq_true_eq] at h
+    have : (65 ≤ c + 32 && c + 32 ≤ 90) = false := by
+      simp only [Bool.and_eq_false_iff, decide_eq_false_iff_not]; right; omega
+    rw [if_neg (by simp only [this]; decide)]
+  · simp [h]
+
+theorem asciiUpper_lower (c : Nat) : asciiUpperChar (asciiLowerChar c) = asciiUpperChar c := by
+  unfold asciiLowerChar asciiUpperChar
+  by_cases h : (65 ≤ c && c ≤ 90) = true
+  · simp only [h, if_true]
+    simp only [Bool.and_eq_true, decide_eq_true_eq] at h
+    have h1 : (97 ≤ c + 32 && c + 32 ≤ 122) = true := by
+      simp only [Bool.and_eq_true, decide_eq_true_eq]; omega
+    have h2 : (97 ≤ c && c ≤ 122) = false := by
+      simp only [Bool.and_eq_false_iff, decide_eq_false_iff_not]; left; omega
+    rw [if_pos h1, if_neg (by simp only [h2]; decide)]
+    omega
+  · simp [h]
+
+/-- **denormalize ∘ normalize** for every ASCII server-side name -/
+theorem denormalize_normalize_ascii (p : Prep) (X n : Str) (f : Option Bool)
+    (hX : ∀ c ∈ X, c < 128) (h : normalizeName p X = some (n, f)) :
+    denormalizeName p f n = some X := by
+  have hlo : ∀ c ∈ X.map asciiLowerChar, c < 128 := by
+    intro c hc
+    obtain ⟨a, ha, e⟩ := List.mem_map.1 hc
+    exact e ▸ asciiLower_lt a (hX a ha)
+  apply denormalize_normalize_gen p X n f _ _ h
+  · rw [lower_ascii p X hX, lower_ascii p _ hlo, List.map_map]
+    apply List.map_congr_left
+    intro c _; exact asciiLower_idem c
+  · rw [lower_ascii p X hX, upper_ascii p _ hlo, upper_ascii p X hX, List.map_map]
+    apply List.map_congr_left
+    intro c _; exact asciiUpper_lower c
+
 end SaVerif.Ident
